@@ -127,6 +127,12 @@ class FetchAttribute(Parseable[bytes]):
         def __hash__(self) -> int:
             return hash((tuple(self.parts), self.specifier, self.headers))
 
+        def __eq__(self, other: Any) -> bool:
+            if isinstance(other, FetchAttribute.Section):
+                return (tuple(self.parts), self.specifier, self.headers) \
+                    == (tuple(other.parts), other.specifier, other.headers)
+            return NotImplemented
+
     _attrname_pattern = re.compile(br' *([^\s\[<()]+)')
     _section_start_pattern = re.compile(br' *\[ *')
     _section_end_pattern = re.compile(br' *\]')
@@ -235,12 +241,13 @@ class FetchAttribute(Parseable[bytes]):
 
     def __eq__(self, other: Any) -> bool:
         if isinstance(other, FetchAttribute):
-            return hash(self) == hash(other)
+            return (self.value, self.section, self.partial) \
+                == (other.value, other.section, other.partial)
         return super().__eq__(other)
 
     def __ne__(self, other: Any) -> bool:
         if isinstance(other, FetchAttribute):
-            return hash(self) != hash(other)
+            return not self.__eq__(other)
         return super().__ne__(other)
 
     def __lt__(self, other: Any) -> bool:
